@@ -96,7 +96,9 @@ func (cc *clientCxn) queueStateChange(newState cxnState, eventData any) {
 
 // request connection close
 func (cc *clientCxn) RequestClose() {
+	simBeforeLock(&cc.mu, "cc.mu")
 	cc.mu.Lock()
+	defer simAfterUnlock(&cc.mu, "cc.mu")
 	defer cc.mu.Unlock()
 
 	if !cc.closing {
@@ -110,7 +112,9 @@ func (cc *clientCxn) RequestClose() {
 }
 
 func (cc *clientCxn) IsCloseRequested() bool {
+	simBeforeLock(&cc.mu, "cc.mu")
 	cc.mu.Lock()
+	defer simAfterUnlock(&cc.mu, "cc.mu")
 	defer cc.mu.Unlock()
 	return cc.closing
 }
@@ -175,15 +179,19 @@ func (cc *clientCxn) onWaitForCommand() {
 
 	cmd, length := cc.parseCommand()
 	if length == 0 {
+		simBeforeLock(&cc.mu, "cc.mu")
 		cc.mu.Lock()
 		cc.waiting = true
 		cc.mu.Unlock()
+		simAfterUnlock(&cc.mu, "cc.mu")
 
 		n, err := cc.cxn.Read(buffer)
 
+		simBeforeLock(&cc.mu, "cc.mu")
 		cc.mu.Lock()
 		cc.waiting = false
 		cc.mu.Unlock()
+		simAfterUnlock(&cc.mu, "cc.mu")
 
 		if err != nil {
 			if !errors.Is(err, io.EOF) {
@@ -206,10 +214,12 @@ func (cc *clientCxn) onWaitForCommand() {
 	if length == 0 {
 		cc.queueStateChange(csWaitForCommand, nil)
 	} else {
+		simBeforeLock(&infoMu, "infoMu")
 		infoMu.Lock()
 		info.total_net_input_bytes += int64(length)
 		info.total_reads_processed++
 		infoMu.Unlock()
+		simAfterUnlock(&infoMu, "infoMu")
 		cc.inbound = cc.inbound[length:]
 		cc.queueStateChange(csDispatchCommand, cmd)
 	}
@@ -237,11 +247,13 @@ func (cc *clientCxn) onDispatchCommand(cmd respValue) {
 			cc.cxn.Close()
 		} else {
 			cc.cs.l.Tracef("wrote %d bytes", n)
+			simBeforeLock(&infoMu, "infoMu")
 			infoMu.Lock()
 			info.total_net_output_bytes += int64(n)
 			info.total_writes_processed++
 			info.total_commands_processed++
 			infoMu.Unlock()
+			simAfterUnlock(&infoMu, "infoMu")
 			cc.queueStateChange(csWaitForCommand, nil)
 		}
 	}()
